@@ -385,6 +385,104 @@ def r4(k: Kit) -> None:
               'forward task is not owned by the connection', ff.loc(ff.node))
 
 
+def r5(k: Kit) -> None:
+    """Dynamic ports and half-built listeners."""
+    rep = k.rep
+    idx = k.idx
+    rep.rule('C20.R5', 'a dynamically allocated port (requested port 0) is '
+             'replaced by listener.get_port() before the port is copied to '
+             'another variable, used as a listener-registry key or encoded '
+             'into a reply; a listener built from several sockets closes the '
+             'servers it already started on every explicit error exit')
+    sites = 0
+    for fi in idx.iter_funcs(['connection']):
+        fix = []
+        for n in ast.walk(fi.node):
+            if isinstance(n, ast.If) and isinstance(n.test, ast.Compare) and \
+                    len(n.test.ops) == 1 and \
+                    isinstance(n.test.ops[0], ast.Eq) and \
+                    isinstance(n.test.comparators[0], ast.Constant) and \
+                    n.test.comparators[0].value == 0:
+                var = dotted(n.test.left)
+                if var and any(isinstance(b, ast.Assign) and
+                               dotted(b.targets[0]) == var and
+                               is_call(b.value, 'get_port')
+                               for b in n.body):
+                    fix.append((n, var))
+        if not fix:
+            continue
+        g = k.cfg(fi)
+        for ifn, var in fix:
+            atom = g.node_for(ifn.test)
+            if atom is None:
+                rep.error('C20.R5', key(fi, 'fix-up test'), 'no CFG node')
+                continue
+            for nd in g.nodes:
+                a = nd.ast
+                if nd.id == atom.id or a is None:
+                    continue
+                publishes = None
+                if nd.kind == 'stmt' and isinstance(a, ast.Assign):
+                    t0 = a.targets[0]
+                    if isinstance(a.value, ast.Name) and a.value.id == var \
+                            and dotted(t0) != var:
+                        publishes = f'copied to `{dotted(t0)}`'
+                    elif isinstance(t0, ast.Subscript) and \
+                            var in names_read(t0.slice) and \
+                            (dotted(t0.value) or '').startswith('self._'):
+                        publishes = f'used as key of `{dotted(t0.value)}`'
+                    elif is_call(a.value, 'UInt32') and \
+                            var in names_read(a.value):
+                        publishes = 'encoded into the reply'
+                if publishes is None:
+                    continue
+                sites += 1
+                w = g.path(g.entry, nd.id, blocked_nodes=[atom.id])
+                rep.check(w is None, 'C20.R5',
+                          key(fi, f'`{var}` {publishes} after port fix-up'),
+                          f'`{var}` {publishes} only after the port-0 fix-up',
+                          f'`{var}` is {publishes} on a path that has not yet '
+                          'replaced a requested port 0 by the allocated port: '
+                          'dynamic forwards are registered / answered with '
+                          'port 0 and traffic goes to the wrong listener',
+                          k.loc(fi, nd), g.describe_path(w) if w else None)
+    rep.floor('C20.R5', 'published dynamic-port uses', sites, 5)
+    # half-built listeners
+    fi = k.func('listener.create_tcp_local_listener')
+    g = k.cfg(fi)
+    lists = set()
+    for c in ast.walk(fi.node):
+        if isinstance(c, ast.Call) and isinstance(c.func, ast.Attribute) and \
+                c.func.attr == 'append' and isinstance(c.func.value, ast.Name):
+            lists.add(c.func.value.id)
+    closers = [n.id for n in g.nodes if n.kind == 'loop' and
+               isinstance(n.ast, ast.For) and isinstance(n.ast.iter, ast.Name)
+               and n.ast.iter.id in lists and any(
+                   is_call(c, 'close') for c in ast.walk(n.ast))]
+    outer = [n for n in g.nodes if n.kind == 'loop' and
+             isinstance(n.ast, ast.For) and any(
+                 isinstance(c, ast.Call) and is_call(c, 'create_server')
+                 for c in ast.walk(n.ast))]
+    raises = 0
+    for o in outer:
+        inner = {id(x) for x in ast.walk(o.ast)}
+        for r in g.nodes:
+            if r.kind == 'raise_stmt' and id(r.ast) in inner:
+                raises += 1
+                w = g.path(o.id, r.id, blocked_nodes=closers)
+                rep.check(bool(closers) and w is None, 'C20.R5',
+                          key(fi, 'error exit closes started servers'),
+                          'servers already started are closed before the '
+                          'bind error is raised',
+                          'a bind failure on a later address leaves the '
+                          'servers already started for earlier addresses '
+                          'listening: an orphaned forwarder outlives the '
+                          'failed request and the SSH connection',
+                          k.loc(fi, r), g.describe_path(w) if w else None)
+    rep.floor('C20.R5', 'explicit error exits in the multi-socket listener',
+              raises, 1)
+
+
 def run(idx, rep, tier):
     k = Kit(idx, rep)
     rep.assumptions += NOT_DECIDED
@@ -392,3 +490,4 @@ def run(idx, rep, tier):
     r2(k)
     r3(k)
     r4(k)
+    r5(k)
